@@ -214,6 +214,26 @@ def buffer_contract_rule(prog, res):
                     an_ = _c18.as_new(g, ba['id'])
                     if an_ and an_['array'] and an_['size'] is not None:
                         alloc.append((g, an_['size']))
+                elif ba['k'] == 'DeclRefExpr' and ba['decl'].get('dk') == 'local' and re.match(r'^(?:unsigned |signed )?char\s*\[(\d+)\]$', str(ba.get('t') or ba['decl'].get('type') or '')):
+                    # a local array of fixed capacity
+                    cap = int(re.match(r'^(?:unsigned |signed )?char\s*\[(\d+)\]$', str(ba.get('t') or ba['decl'].get('type'))).group(1))
+                    dcap = P.diff_const(P.const(cap), required)
+                    if dcap is not None and dcap >= 0:
+                        alloc.append((g, P.const(cap)))
+                    elif dcap is not None:
+                        res.viol('buffer-contract', '%s(%s)' % (f.name, P.show(required)), g.loc(cn['id']), 'local array of %d bytes, callee writes %s bytes' % (cap, P.show(required)), function=g.sig, expr='contract:' + f.name, sure=True)
+                        continue
+                    else:
+                        import indexsites as _IS2
+                        atoms_ = {a_ for mono in required for a_ in mono}
+                        tested = [1 for l_, op_, r_, _x in _IS2.facts_at(g, RG, cn['id']) if any(a_ in str(l_) or a_ in str(r_) for a_ in atoms_)]
+                        if tested:
+                            res.undecided('buffer-contract', f.sig, g.loc(cn['id']), 'local array of %d bytes, %s bytes are written under a guard the rule cannot relate to the capacity [shape not read by the rule]' % (cap, P.show(required)),
+                                          function=g.sig, expr='alloc')
+                        else:
+                            res.viol('buffer-contract', '%s(%s)' % (f.name, P.show(required)), g.loc(cn['id']), 'a local array of %d bytes receives %s bytes and nothing in the function compares that count with the capacity: '
+                                     'a larger count (it comes from the caller / the file) writes past the array' % (cap, P.show(required)), function=g.sig, expr='contract:' + f.name, sure=True)
+                        continue
                 elif ba['k'] == 'DeclRefExpr' and ba['decl'].get('dk') == 'local':
                     init = local_init(g, ba['decl']['id'])
                     if init is not None:
@@ -436,6 +456,51 @@ def stale_reference_rule(prog, res):
                 res.ok('dangling', inst, f.loc(), 'the argument is not read after a reallocation of %s (push_back of the argument itself is alias-safe)' % cont,
                        function=f.sig, expr='param-alias:' + prm['name'])
     res.minimum('methods storing an argument of the element type of their own container', npar, 4)
+    # (d) an argument of the type of a member may BE that member when a public getter hands the member out by reference
+    # (p.set(values, p.dimension())): the member must not be emptied / rebuilt before the argument has been read
+    for cq, c in sorted(prog.classes.items()):
+        if not cq.startswith('ezc3d::'):
+            continue
+        ref_getters = {}
+        for g_ in prog.repo_funcs():
+            if g_.cls == cq and g_.kind == 'method' and g_.rec.get('const') and not g_.params and g_.rec.get('access', 'public') == 'public' and str(g_.rec.get('ret', '')).endswith('&') and g_.body is not None:
+                Rg = Renderer(g_)
+                rets = {Rg.render(r_['ch'][0]) for r_ in g_.all_nodes({'ReturnStmt'}) if r_.get('ch')}
+                if len(rets) == 1 and re.match(r'^this\.\w+$', list(rets)[0]):
+                    ref_getters[list(rets)[0][5:]] = g_
+        for fl in c['fields']:
+            if fl['name'] not in ref_getters or not fl['type'].startswith('std::vector<'):
+                continue
+            for f in prog.repo_funcs():
+                if f.cls != cq or f.kind != 'method' or f.implicit or f.body is None:
+                    continue
+                for prm in f.params:
+                    if prm['type'] != 'const %s &' % fl['type']:
+                        continue
+                    public = f.rec.get('access', 'public') == 'public' or any(h.cls == cq and h.rec.get('access', 'public') == 'public' and
+                                                                              any(Renderer(h).render(a_).startswith('arg') for a_ in h.call_args(cn)) for h, cn in prog.callers_of(f.usr))
+                    if not public:
+                        continue
+                    g = f.events()
+                    wipes = [e for e in E.events_of(f, 'this') if tuple(e[2]) == (fl['name'],) and e[3] in ('clear', 'assign', 'resize', 'erase') and
+                             not (f.nodes[e[0]]['k'] in ('CXXOperatorCallExpr', 'BinaryOperator'))]      # `member = argument` is self-assignment safe
+                    uses = [x for x in f.all_nodes({'DeclRefExpr'}) if x['decl'].get('dk') == 'param' and x['decl'].get('id') == prm['id']]
+                    hit = None
+                    for e in wipes:
+                        ev = g.vertex_of.get(e[0])
+                        if ev is None:
+                            continue
+                        late = [u for u in uses if g.vertex_of.get(u['id']) in g.reach([ev]) and u['id'] not in f.descendants(e[0])]
+                        if late:
+                            hit = (e, late[0])
+                            break
+                    inst = '%s::%s: argument `%s` may be the member %s itself' % (cq.split('::')[-1], f.name, prm['name'], fl['name'])
+                    if hit:
+                        res.viol('dangling', inst, f.loc(hit[1]['id']), '%s() hands out a reference to %s; this function empties / rebuilds %s (%s at %s) and reads the argument afterwards: called with the object\'s own '
+                                 '%s() the argument is already gone' % (ref_getters[fl['name']].name, fl['name'], fl['name'], FX.fmt(hit[0]), f.loc(hit[0][0]), ref_getters[fl['name']].name),
+                                 function=f.sig, expr='member-alias:' + prm['name'], sure=True)
+                    else:
+                        res.ok('dangling', inst, f.loc(), 'the member is not emptied before the argument has been read', function=f.sig, expr='member-alias:' + prm['name'])
 
 
 def copy_bound_rule(prog, res, scope=None, rule='copy-bound'):
